@@ -49,7 +49,8 @@ def units(prop):
                  assumptions=["labels in non-decreasing order (the reader sorts them)", "exact real arithmetic"],
                  outside=["the CMAP reader (pandas): not decided by this check", "more than 8 labels"]),
             Unit(name="cmap-reader-on-witnesses", body=body_reader, witness=False,
-                 configs=lambda tier: [dict(n1=a, n2=b) for a, b in ((1, 0), (2, 1), (3, 2))] + ([dict(n1=4, n2=3)] if tier != "quick" else []),
+                 configs=lambda tier: [dict(n1=a, n2=b) for a, b in ((1, 0), (2, 1), (3, 2))] + [dict(n1=3, n2=2, coincident=True)] +
+                                      ([dict(n1=4, n2=3)] if tier != "quick" else []),
                  functions=["src.parsers.cmap_reader:CmapReader", "src.parsers.bionano_file_reader:BionanoFileReader.readFile"],
                  bounds="NOT solver-decided: one witness per path (three molecules: ids 5, 2 and a label-less 9) rendered as CMAP text in canonical, "
                         "reversed and interleaved row order, with and without an extra column, read with and without id filters by the real reader",
@@ -99,7 +100,10 @@ def body_reader(E, cfg):
         labels = []
         for i in range(n):
             v = E.real(f"m{mid}_label{i}")
-            E.assume(v >= 0 if i == 0 else v > labels[-1] + 1)
+            if cfg.get("coincident") and i == 1:
+                E.assume(v == labels[-1])         # two label rows at exactly the same coordinate
+            else:
+                E.assume(v >= 0 if i == 0 else v > labels[-1] + 1)
             labels.append(v)
         length = E.real(f"m{mid}_length")
         E.assume(length >= (labels[-1] if labels else 0) + 1)
